@@ -25,7 +25,7 @@ Functions for manipulating edges in the CFG.
 """
 
 import uuid
-from typing import Container, Optional, overload
+from typing import Container, Optional, Set, overload
 
 import gtirb
 from typing_extensions import NotRequired, TypedDict, Unpack
@@ -196,6 +196,19 @@ def remove_return_edges_from_callee(
     if not func_uuid:
         return
 
+    # Other calls to the same block may return to the same place (e.g. when
+    # a call is being replaced by another call); their return edges must stay.
+    other_return_sites: Set[gtirb.CfgNode] = set()
+    for other_call in call_edge.target.incoming_edges:
+        if (
+            _is_call_edge(other_call)
+            and other_call.source is not call_edge.source
+            and isinstance(other_call.source, gtirb.CodeBlock)
+        ):
+            other_return_sites.update(
+                _block_fallthrough_targets(other_call.source)
+            )
+
     for block in _get_function_blocks(call_edge.target.module, func_uuid):
         assert block.module and block.ir
 
@@ -205,7 +218,10 @@ def remove_return_edges_from_callee(
 
         remaining_edges = False
         for edge in return_edges:
-            if edge.target in fallthrough_targets:
+            if (
+                edge.target in fallthrough_targets
+                and edge.target not in other_return_sites
+            ):
                 block.ir.cfg.discard(edge)
             else:
                 remaining_edges = True
